@@ -463,6 +463,9 @@ func (c *Conn) prepareDualStackServerHandshakeStart(ctx context.Context) (handsh
 		flight12: dtlsflight12.Flight0,
 		flight13: dtlsflight13.Flight0,
 		fsmState: dtlshandshake.StatePreparing,
+		postSetup: func(ctx context.Context) {
+			c.primeHandshakeRecv(ctx)
+		},
 	}, nil
 }
 
